@@ -117,6 +117,9 @@ pub enum WireFault {
     PkFieldByte { field: PkField, idx: u8, val: u8 },
     PkTruncateTo { len: usize },
     PkExtend { #[serde(with = "hexs")] bytes: Vec<u8> },
+    /// pad the signature / public key with `val` bytes up to a total length (over-long deliveries)
+    SigPadTo { len: usize, val: u8 },
+    PkPadTo { len: usize, val: u8 },
     MsgBit { pos: Frac, bit: u8 },
     MsgTruncate { len: Frac },
     MsgExtend { #[serde(with = "hexs")] bytes: Vec<u8> },
@@ -197,6 +200,10 @@ pub enum Op {
     KeygenLen { key: usize, len: usize },
     /// overwrite the durable private key with the blob for this counter (a reachable persisted state)
     Inject { key: usize, counter: u64 },
+    /// store the key file a build with wider limits would have written for this key's parameter list
+    /// (same blob format), then offer it to the lifetime query, hbs_lms::sign, SigningKey::from_bytes and
+    /// try_sign: a list beyond this build's limits must be refused, not used as some other key (C14)
+    ForeignKey { key: usize, counter: u64 },
     Load { proc: usize, how: LoadAs },
     Sign { proc: usize, msg: Msg, api: Api, cb: Cb, aux: Option<usize> },
     Lifetime { proc: usize },
@@ -226,6 +233,7 @@ impl Op {
             Op::Keygen { .. } => "Keygen",
             Op::KeygenLen { .. } => "KeygenLen",
             Op::Inject { .. } => "Inject",
+            Op::ForeignKey { .. } => "ForeignKey",
             Op::Load { .. } => "Load",
             Op::Sign { .. } => "Sign",
             Op::Lifetime { .. } => "Lifetime",
